@@ -127,8 +127,8 @@ CHECKS = [
         "Shape, EVERY chunking and split_every, the pair (discovered labels, values) equals (labels eager factorisation finds, "
         "Spec.reduce over the eager codes) i.e. the eager mapping (unknown_labels_same_mapping, runUnknown_eq_spec); the "
         "discovered labels are duplicate-free, exactly the non-missing labels, ascending for sort=True; chunking and tree are "
-        "irrelevant; the hypothesis 'some label is not missing' is necessary (hpres_counterexample = finding C12-F2: a spurious "
-        "NaN label). First sentence (laziness) is a runtime fact of the Python code and is OBSERVED, not proved: groupby_reduce, "
+        "irrelevant; when every label is missing no label is found, as eagerly (runUnknown_all_missing; this was finding "
+        "C12-F2 before fix 2e9744c). First sentence (laziness) is a runtime fact of the Python code and is OBSERVED, not proved: groupby_reduce, "
         "groupby_scan and xarray_reduce are called with dask arrays whose every chunk raises+counts when evaluated (values, and "
         "labels when chunked) under raising+counting schedulers, exhaustively over reduction x method x numpy|dask labels x "
         "expected_groups x reindex (x engine in thorough) and over seeded random layouts (n-D, axis subsets, degenerate label "
@@ -198,8 +198,8 @@ CHECKS = [
         "Lean theorems over the WHOLE finite grid reduction(31) x input dtype(13) x dtype=(4) x fill_value(5) x min_count x engine "
         "(kernel-checked enumeration; the grid is the property's quantifier over dtypes): the dtype model of groupby_reduce "
         "(hand-written entry/exit logic + _initialize_aggregation table regenerated from /repo) equals NumPy's convention "
-        "(requested dtype, else NumPy default of the reduction, widened by result_type to hold the fill) outside two named deviation "
-        "cells (counterexample theorems), never refuses inside NumPy's domain, is engine-independent and min_count-independent "
+        "(requested dtype, else NumPy default of the reduction, widened by result_type to hold the fill) outside one named table-level "
+        "deviation cell (bool input of mode; counterexample theorem), never refuses inside NumPy's domain, is engine-independent and min_count-independent "
         "(one documented cell), accumulates integers in 64-bit dtypes, and is stable under the final reindex; the spec's promotion "
         "rules are tied to NumPy's own tables (result_type, min_scalar_type, iinfo, np.<reduction>(a).dtype). Structural theorems "
         "(all label lists / chunkings): announced group-axis chunks = groups returned by the blocks for blockwise, reindexed "
@@ -231,16 +231,16 @@ CHECKS = [
         "Lean model of the validation / planning chain of groupby_reduce (`_validate_reindex`, `_choose_method`, `_choose_engine`, the "
         "entry guards and the guards at the top of dask_groupby_agg) on an abstract configuration cell; the three decision functions "
         "are proved equal to tables regenerated from the live code (decide +kernel), and theorems proved for every cell by exhaustive "
-        "kernel evaluation: the chain never fails an assertion on aligned input unless more axes than label dimensions are requested "
-        "(partial; counterexample theorem = finding C19-F6), every accepted plan satisfies the strategy-specific preconditions "
+        "kernel evaluation: on aligned input the chain never fails an assertion - every refusal is ValueError / NotImplementedError / "
+        "ImportError (full; the former counterexamples are now clean refusals), every accepted plan satisfies the strategy-specific preconditions "
         "(cohorts never with blockwise reindexing, arg-reductions never on the flox engine / blockwise only on one block, ...), "
         "method=None is accepted wherever method='map-reduce' is (and only there for reductions with a chunk function). The "
         "data-dependent part (no internal error at compute time, values = NumPy oracle, auto = map-reduce, cohorts/blockwise match or "
         "are refused) is checked by differential execution over the enumerated cells (reduction x engine x method x reindex x label "
         "kind x label/value ndim x axis x expected_groups x layout) against the Lean model (call-time outcome and resolved plan), a "
         "NumPy oracle and the Lean specification `Spec19.violations`.", CORR, "DESIGN.md §7 C19",
-        note=TB + " Behaviour inside graph construction and at compute time is observed on the enumerated cells, not proved; six open "
-        "findings (C19-F1..F6) are recorded in KNOWN_FINDINGS.json."),
+        note=TB + " Behaviour inside graph construction and at compute time is observed on the enumerated cells, not proved; the open "
+        "finding C19-F5 is recorded in KNOWN_FINDINGS.json (the others were repaired in /repo)."),
     chk("C14",
         "Lean theorems over a model of flox's process state (registry of blueprints with the fields _initialize_aggregation and "
         "groupby_scan write, the cachey / lru memo tables keyed by the token of the full argument, evictions): after ANY sequence "
